@@ -50,4 +50,5 @@ extern struct op_entry ops_tmpltext[];
 void tmpltext_reset(void);
 extern struct op_entry ops_switch[];
 void switch_reset(void);
+extern int bvp_poisoned;
 #endif
